@@ -190,12 +190,21 @@ class StepMod(Component):
 
     def setup(self, builder):
         self.step = builder.time.step_size()
+        self.clock = builder.time.clock()
         builder.time.register_step_size_modifier(self.modifier)
         self.base = (pd.Timedelta(days=self.spec["step"]) if _is_dt(self.spec) else self.spec["step"])
+        self.start = pd.Timestamp(2020, 1, 1) if _is_dt(self.spec) else 0
 
     def modifier(self, index):
         sm = self.spec["stepmod"]
-        vals = [self.base * sm["mult"] if (i % sm["every"] == 0) else (pd.NaT if _is_dt(self.spec) else np.nan) for i in index]
+        everybody = False
+        if sm.get("vary"):
+            # time-varying requests: in every third base interval EVERY simulant asks for the long step, so the
+            # global step itself changes during the run
+            k = int((self.clock() - self.start) / self.base)
+            everybody = k % 3 == 1
+        vals = [self.base * sm["mult"] if (everybody or i % sm["every"] == 0) else (pd.NaT if _is_dt(self.spec) else np.nan)
+                for i in index]
         if _is_dt(self.spec):
             return pd.Series(pd.to_timedelta(vals), index=index)
         return pd.Series(vals, index=index, dtype=float)
